@@ -47,7 +47,7 @@ func genC07(g GenCtx) interface{} {
 	}
 	sc.Kind = pick(rng, "subf", "subf", "clonef")
 	sc.Touch = rng.Intn(4) == 0
-	sc.Sim = SimCfg{Strategy: randStrategy(rng, libGoroutines), PermuteMaps: true, MaxSteps: 300000, EstSteps: 1500}
+	sc.Sim = SimCfg{Strategy: randStrategy(rng, libGoroutines), PermuteMaps: true, MaxSteps: 100000, EstSteps: 1500}
 	sc.Sim.Strategy.StallPermille = 0
 	return sc
 }
